@@ -540,7 +540,7 @@ func toProto(fdesc protoreflect.FieldDescriptor, v starlark.Value) (protoreflect
 			return protoreflect.ValueOfString(s), nil
 		} else if b, ok := v.(starlark.Bytes); ok {
 			// TODO(adonovan): allow bytes for string? Not friendly to a Java port.
-			return protoreflect.ValueOfBytes([]byte(b)), nil
+			return protoreflect.ValueOfString(string(b)), nil
 		}
 
 	case protoreflect.BytesKind:
